@@ -18,7 +18,13 @@ ASSUMPTIONS = ["names and string values contain no '=' (so that the k=v string i
 cl = emit.cl
 
 
+LATE_SALT = [0]
+
+
 def decl(hps, rng, name):
+    if name.startswith("late"):
+        # a build function declares a given name the same way in every trial: what `late<i>` is depends on the case only
+        rng = random.Random("%s/%d" % (name, LATE_SALT[0]))
     kind = rng.choice(["int", "choice", "bool", "fixed", "float", "intbig"])
     if kind == "int":
         lo = rng.randint(0, 2); return hps.Int(name, lo, lo + rng.randint(0, 2))
@@ -53,6 +59,7 @@ def run_case(seed):
     from keras_tuner.engine.hyperparameters import hyperparameter as hpbase
     from keras_tuner.tuners import randomsearch
     rng = random.Random(seed); I = emit.Intern()
+    LATE_SALT[0] = seed
     hps = gen_space(rng)
     cfg = dict(max_trials=rng.choice([None, 2, 4, 8]), max_retries=rng.choice([0, 1]), max_consec=rng.choice([2, 3, 9]))
     W = rng.randint(1, 3); d = tempfile.mkdtemp(prefix="ktv06_"); sd = rng.randint(1, 10 ** 6)
